@@ -112,19 +112,20 @@ def nEsc : Text := [101, 115, 99]   -- `esc`
 def nBlkBoom : Text := [98, 108, 107, 95, 98, 111, 111, 109]   -- `blk_boom`
 def nSub : Text := [115, 117, 98]   -- `sub`
 def nUnsub : Text := [117, 110, 115, 117, 98]   -- `unsub`
+def nRpcE : Text := [114, 112, 99, 46, 101]   -- `rpc.e` (a registered method whose name starts with the reserved-looking prefix)
 
 /-- the harness registry: method name → kind -/
 def kindOfMethod (m : Text) : Option MKind :=
   if m == nSub then some .subscribe
   else if m == nUnsub then some .unsubscribe
-  else if m == nEcho || m == nSum || m == nFail || m == nStr || m == nEsc then some .sync
+  else if m == nEcho || m == nSum || m == nFail || m == nStr || m == nEsc || m == nRpcE then some .sync
   else if m == nAEcho || m == nASum then some .async
   else if m == nBlkEcho || m == nBlkBoom then some .blocking
   else none
 
 /-- what the registered handler of `m` produces for given params -/
 def outcomeOf (m : Text) (p : Option Text) : Outcome :=
-  if m == nEcho || m == nAEcho || m == nBlkEcho then .result (paramsText p)
+  if m == nEcho || m == nAEcho || m == nBlkEcho || m == nRpcE then .result (paramsText p)
   else if m == nSum || m == nASum then sumOutcome p
   else if m == nFail then .error ⟨7, [99, 117, 115, 116, 111, 109], (Params.new p).raw⟩   -- "custom"
   else if m == nStr then strOutcome p
